@@ -33,6 +33,8 @@ type TypeOpts struct {
 	// one-byte counters end), each a scalar or a container of scalars, by itself
 	// or as the element of a list, the value of a map or a member of a tuple.
 	Wide bool
+	// WideOneIn: how rare a wide type is (0: one in three hundred)
+	WideOneIn int
 }
 
 // AllScalars are the sixteen scalar kinds that have a fixed encoding plus s.
@@ -212,7 +214,11 @@ func DrawValue(t *rapid.T, ty *ref.Type, o ValueOpts) interface{} {
 
 // DrawType draws a type directly.
 func DrawType(t *rapid.T, o TypeOpts) *ref.Type {
-	if o.Wide && o.Depth >= 1 && (o.Tuples || o.Structs) && rapid.IntRange(0, 299).Draw(t, "wide") == 0 {
+	oneIn := o.WideOneIn
+	if oneIn <= 0 {
+		oneIn = 300
+	}
+	if o.Wide && o.Depth >= 1 && (o.Tuples || o.Structs) && rapid.IntRange(0, oneIn-1).Draw(t, "wide") == 0 {
 		return drawWide(t, o)
 	}
 	return drawType(t, o, o.Depth)
